@@ -357,17 +357,25 @@ def run_witness(u, scratch, failed_obligations, tier):
         if r.returncode != 0:
             return {"_error": "rsync failed: " + r.stderr[-300:]}
     crate_dir = os.path.join(copy, w["crate_dir"])
-    tdir = os.path.join(crate_dir, "tests")
-    os.makedirs(tdir, exist_ok=True)
     tname = "verif_witness_" + u["unit"]
-    shutil.copy(os.path.join(u["_dir"], w["file"]), os.path.join(tdir, tname + ".rs"))
     env = dict(os.environ, CARGO_NET_OFFLINE="true", CARGO_TARGET_DIR=os.path.join(scratch, "target"))
-    cmd = ["cargo", "test", "--offline", "--test", tname] + w.get("cargo_args", []) + ["--", "--test-threads", "8"]
+    if w.get("append_to"):
+        # in-crate unit tests (private items): the witness module is appended to a source file of the scratch copy
+        tgt = os.path.join(copy, w["append_to"])
+        marker = "// ---- appended by /verif: " + tname
+        if marker not in open(tgt).read():
+            open(tgt, "a").write("\n" + marker + "\n" + open(os.path.join(u["_dir"], w["file"])).read())
+        cmd = ["cargo", "test", "--offline", "--lib"] + w.get("cargo_args", []) + ["verif_witness", "--", "--test-threads", "8"]
+    else:
+        tdir = os.path.join(crate_dir, "tests")
+        os.makedirs(tdir, exist_ok=True)
+        shutil.copy(os.path.join(u["_dir"], w["file"]), os.path.join(tdir, tname + ".rs"))
+        cmd = ["cargo", "test", "--offline", "--test", tname] + w.get("cargo_args", []) + ["--", "--test-threads", "8"]
     r = sh(cmd, cwd=crate_dir, env=env)
     out = r.stdout + "\n" + r.stderr
     results = {}
     for m in re.finditer(r"^test (\S+) \.\.\. (ok|FAILED)", out, re.M):
-        results[m.group(1)] = m.group(2)
+        results[m.group(1).split("::")[-1]] = m.group(2)
     if not results:
         return {"_error": "witness crate did not build/run: " + out[-1500:]}
     return {"_results": results, "_cmd": " ".join(cmd), "_output": out[-6000:], "_map": w.get("map", {})}
